@@ -178,12 +178,13 @@ def _lit(node, scope):
             l, r = _lit(node.left, scope), _lit(node.right, scope)
             if l[0] and r[0]:
                 return True, l[1] % r[1]
-        if isinstance(node, ast.BinOp) and isinstance(node.op, (ast.Add, ast.Sub, ast.Mult, ast.Pow, ast.BitOr)):
+        if isinstance(node, ast.BinOp) and isinstance(node.op, (ast.Add, ast.Sub, ast.Mult, ast.Pow, ast.BitOr, ast.BitAnd, ast.LShift, ast.RShift, ast.FloorDiv)):
             l, r = _lit(node.left, scope), _lit(node.right, scope)
-            if l[0] and r[0]:
+            if l[0] and r[0] and (not isinstance(node.op, (ast.LShift, ast.Pow)) or (isinstance(r[1], int) and 0 <= r[1] <= 64)):
                 import operator
 
-                op = {ast.Add: operator.add, ast.Sub: operator.sub, ast.Mult: operator.mul, ast.Pow: operator.pow, ast.BitOr: operator.or_}[type(node.op)]
+                op = {ast.Add: operator.add, ast.Sub: operator.sub, ast.Mult: operator.mul, ast.Pow: operator.pow, ast.BitOr: operator.or_, ast.BitAnd: operator.and_,
+                      ast.LShift: operator.lshift, ast.RShift: operator.rshift, ast.FloorDiv: operator.floordiv}[type(node.op)]
                 return True, op(l[1], r[1])
         if isinstance(node, ast.Call) and isinstance(node.func, ast.Name) and node.func.id == "bchr" and len(node.args) == 1:
             ok, v = _lit(node.args[0], scope)
@@ -218,3 +219,62 @@ def load(modname: str) -> Module:
 
 def reset():
     _cache.clear()
+
+
+def flat_func(mod: "Module", qualname: str):
+    """The function's AST with every statement `self.helper()` (no arguments; helper a method of the same class whose body has no `return <value>` and no
+    `yield`) replaced by the helper's body - one level, mechanically.  Static obligations that read a function's text use this, so that moving a few statements
+    into a private helper method does not change what they see."""
+    import copy
+
+    fn = copy.deepcopy(mod.func(qualname))
+    cls = qualname.rsplit(".", 1)[0] if "." in qualname else None
+    if cls is None or cls not in mod.classes:
+        return fn
+
+    def helper_body(call):
+        if not (isinstance(call, ast.Call) and not call.keywords and all(isinstance(x, ast.Name) for x in call.args) and isinstance(call.func, ast.Attribute)
+                and isinstance(call.func.value, ast.Name) and call.func.value.id == "self"):
+            return None
+        q = f"{cls}.{call.func.attr}"
+        h = mod.functions.get(q)
+        if h is None or q == qualname or len(h.args.args) != 1 + len(call.args) or h.args.vararg or h.args.kwarg or h.args.kwonlyargs:
+            return None
+        ren = {prm.arg: x.id for prm, x in zip(h.args.args[1:], call.args)}
+        if any(isinstance(n, (ast.Assign, ast.AugAssign, ast.AnnAssign, ast.For, ast.With)) and any(isinstance(t, ast.Name) and t.id in ren for t in ast.walk(n) if isinstance(getattr(t, "ctx", None), ast.Store))
+               for n in ast.walk(h)):
+            return None   # the helper rebinds a parameter: not a plain inline
+        if any(isinstance(n, (ast.Yield, ast.YieldFrom)) or (isinstance(n, ast.Return) and n.value is not None) or isinstance(n, (ast.FunctionDef, ast.Lambda)) for b_ in h.body for n in ast.walk(b_)):
+            return None
+        if any(isinstance(n, ast.Return) for n in ast.walk(h)):
+            return None
+        body = [copy.deepcopy(s) for s in h.body]
+        for st_ in body:
+            for n in ast.walk(st_):
+                if isinstance(n, ast.Name) and n.id in ren:
+                    n.id = ren[n.id]
+        if body and isinstance(body[0], ast.Expr) and isinstance(body[0].value, ast.Constant) and isinstance(body[0].value.value, str):
+            body = body[1:]
+        return body or [ast.Pass()]
+
+    def rewrite(stmts):
+        out = []
+        for s in stmts:
+            hb = helper_body(s.value) if isinstance(s, ast.Expr) else None
+            if hb is not None:
+                out.extend(hb)
+                continue
+            for fld in ("body", "orelse", "finalbody"):
+                if isinstance(getattr(s, fld, None), list) and not isinstance(s, (ast.FunctionDef, ast.ClassDef)):
+                    setattr(s, fld, rewrite(getattr(s, fld)))
+            for h in getattr(s, "handlers", []) or []:
+                h.body = rewrite(h.body)
+            out.append(s)
+        return out
+
+    fn.body = rewrite(fn.body)
+    return ast.fix_missing_locations(fn)
+
+
+def flat_src(mod: "Module", qualname: str) -> str:
+    return ast.unparse(flat_func(mod, qualname))
